@@ -2,6 +2,7 @@ import Pcore.Props.C12
 open Pcore.LoaderSeq
 #print axioms C12_load
 #print axioms C12_load_foreign
+#print axioms C12_lookups_pure
 #print axioms C12_has
 #print axioms C12_get
 #print axioms C12_writeonce
